@@ -56,7 +56,8 @@ def gen(rng, lookalike=None):
     items = rng.sample(GLY, rng.randint(3, 8))
     glyphs = []
     # (direction suffixes also after another name component: entry.1.LTR / exit.1.LTR, entry.alt.RTL ...)
-    suffixes = rng.sample(["", "", ".2", ".LTR", ".RTL", ".alt", ".1.LTR", ".alt.LTR", ".2.RTL"], rng.randint(0, 4))
+    # (... and suffixes that begin with a letter of the word "entry" itself, or with another dot)
+    suffixes = rng.sample(["", "", ".2", ".LTR", ".RTL", ".alt", ".1.LTR", ".alt.LTR", ".2.RTL", ".top", ".end", ".narrow", ".y", ".retry.RTL", "..x"], rng.randint(0, 5))
     for n, u in items:
         anchors = []
         if "_" in n and rng.random() < 0.8:
